@@ -33,16 +33,18 @@ func (d *ParserCustomData) PrepareCustomDice(p *parser) bool {
 	return true
 }
 
-func (d *ParserCustomData) ConsumeCustomDice(p *parser) any {
+// ConsumeCustomDice 将解析位置前移到匹配文本之后。它作为谓词调用(而非动作)，
+// 因为动作在前瞻 &X 中不会执行，位置不前移会使括号、数组、调用参数等处的自定义算符无法解析。
+func (d *ParserCustomData) ConsumeCustomDice(p *parser) bool {
 	match := d.ensurePendingCustomDice(p)
 	if match == nil {
-		return nil
+		return false
 	}
 
 	if match.byteLen <= 0 {
 		// nothing matched; prevent infinite loop by clearing pending state
 		d.pendingCustomDice = nil
-		return nil
+		return false
 	}
 
 	targetOffset := match.startOffset + match.byteLen
@@ -50,7 +52,7 @@ func (d *ParserCustomData) ConsumeCustomDice(p *parser) any {
 		p.read()
 	}
 
-	return nil
+	return true
 }
 
 func (d *ParserCustomData) CommitCustomDice() any {
